@@ -11,7 +11,7 @@ EXEC_NOTE = ("Trusted: Coq kernel + VM; the modelled fibertree runtime Model/Rt.
 
 CHECKS = {
  "C01": ("translation_validation",
-         "Coq theorem C01_nest_sound_partial (unbounded induction over the loop order: the co-iteration nest with unions, intersections and structural defaults computes sum-of-products at every point, for all inputs) + per emitted program translation validation: every program of a generated population of plain Einsums x loop orders x rank orders is compiled by the current tree, translated fail-closed to a Gallina AST and EXECUTED in the kernel VM on several inputs, its output compared with the dense oracle denote. The text-to-nest abstraction is not yet a theorem, hence translation_validation rather than proof.",
+         "Coq theorems C01_nest_sound_partial (unbounded induction over the loop order: the co-iteration nest with unions, intersections and structural defaults computes sum-of-products at every point, for all inputs) and C01_nest_okb_sound_partial (certified validator: the rank structure and per-level co-iteration read off an emitted sum-of-products program are accepted by nest_okb => for ALL inputs that nest computes the Einsum's sum of products; evaluated by the kernel on every such program) + per emitted program translation validation: every program of a generated population of plain Einsums x loop orders x rank orders is compiled by the current tree, translated fail-closed to a Gallina AST and EXECUTED in the kernel VM on several inputs, its output compared with the dense oracle denote. The text-to-nest abstraction is not yet a theorem, hence translation_validation rather than proof.",
          EXEC_NOTE, "Rocq theorem (nest induction) + kernel-evaluated execution of every emitted program vs the Gallina dense oracle", "DESIGN.md section 6 C01"),
  "C02": ("translation_validation",
          "Coq theorems on the arithmetic of splitting by any positive step in stacks of any depth (exactly one partition chain per coordinate, n-way step bounds, merge recovers the coordinate) + kernel-evaluated execution of every emitted partitioned program (any loop order over the levels, literal/symbolic sizes not dividing or exceeding the extent) against the dense oracle.",
@@ -41,6 +41,10 @@ CHECKS = {
  "C08": ("translation_validation",
          "CPython's hash-seeded iteration order is sampled (worker processes under 8/32 PYTHONHASHSEEDs), not modelled. Every distinct text emitted for one specification is decided closed by the verified (sound and complete) da checker and executed in the kernel VM on identical inputs against the oracle; every process also compiles each specification twice and the texts must be identical. Theorem part: exactness of the closedness verdict per variant (C08_variant_closedness_decided_partial); order-independence of hoisting is C10's theorem.",
          EXEC_NOTE + "Hash seeds are sampled, not enumerated.", "seed-sampled variants, each decided by the proved da checker + kernel-evaluated execution on identical inputs", "DESIGN.md section 6 C08"),
+ "C09": ("translation_validation",
+         "Per-tree translation validation with CPython's own parser as the definition of what the text denotes: the object tree the translator built is dumped constructor-for-constructor (EParens included) into Model/HAst.v, the emitted text is parsed by CPython's ast into Model/Py.v, and inside coqc norm(strip(tree)) = norm(parse(text)) is decided by a sumbool equality (sound by construction) - same statements, nesting, operators, operands, tuple arities, keyword arguments, up to re-association of + chains and * chains only. Coq theorems: norm preserves the integer value of every arithmetic expression, is idempotent, its image is exactly the normal forms; the check returns OK iff the normalised trees are equal. Populations: all statement trees of C01-C05/C16/C11 + every expression CoordAccess.build_expr produces from generated affine sympy expressions.",
+         "Trusted: Coq kernel+VM; CPython ast.parse; tools/py2coq.py and tools/obj2coq.py (fail-closed, cross-checking each other); reading EVar('None'/'True'/'False') as constants.",
+         "tree-vs-CPython-parse structural validation decided in the kernel + Rocq theorems on the re-association normal form", "DESIGN.md section 6 C09"),
  "C11": ("translation_validation",
          "Coq theorems about the modelled runtime (API calls other than Tensor only allocate/log; explicit shape and trace= are irrelevant) + pairwise kernel-evaluated execution: every specification with architecture/bindings/format (5 accelerator YAMLs, generated architectures with DRAM/cache/buffet/intersectors of each type/compute, compute-only cascades) is compiled with and without the hardware sections and both programs executed on identical inputs; tensors must equal each other and the oracle.",
          EXEC_NOTE + "Fiber.intersection(style=leader-follower) is modelled as intersection with payloads in argument order.", "Rocq frame/inertness lemmas + paired kernel-evaluated execution (metrics vs plain) vs oracle", "DESIGN.md section 6 C11"),
